@@ -400,6 +400,47 @@ func EventsStr(log []*verifstore.Request) string {
 
 // ---------- execution
 
+// DryRunError turns a scripted admission verdict ("accept", "reject[:Reason]", "error[:Reason]")
+// into the API error a server-side dry run would answer with.
+func DryRunError(verdict string, u *unstructured.Unstructured) error {
+	gk := schema.GroupKind{Group: Group, Kind: u.GetKind()}
+	gr := schema.GroupResource{Group: Group, Resource: strings.ToLower(u.GetKind()) + "s"}
+	kind, reason, _ := strings.Cut(verdict, ":")
+	switch kind {
+	case "reject":
+		switch reason {
+		case "Forbidden":
+			return apierrors.NewForbidden(gr, u.GetName(), errors.New("scripted"))
+		case "BadRequest":
+			return apierrors.NewBadRequest("scripted")
+		case "Conflict":
+			return apierrors.NewConflict(gr, u.GetName(), errors.New("scripted"))
+		case "Unauthorized":
+			return apierrors.NewUnauthorized("scripted")
+		case "MethodNotAllowed":
+			return apierrors.NewMethodNotSupported(gr, "patch")
+		case "TooLarge":
+			return apierrors.NewRequestEntityTooLargeError("scripted")
+		}
+		return apierrors.NewInvalid(gk, u.GetName(), nil)
+	case "error":
+		switch reason {
+		case "TooManyRequests":
+			return apierrors.NewTooManyRequests("scripted", 1)
+		case "Timeout":
+			return apierrors.NewTimeoutError("scripted", 1)
+		case "ServerTimeout":
+			return apierrors.NewServerTimeout(gr, "patch", 1)
+		case "ServiceUnavailable":
+			return apierrors.NewServiceUnavailable("scripted")
+		case "Gone":
+			return apierrors.NewResourceExpired("scripted")
+		}
+		return apierrors.NewInternalError(errors.New("scripted dry-run failure"))
+	}
+	return nil
+}
+
 // ApplyEnv performs one third-party operation on the store.
 func ApplyEnv(env *Env, e EnvOp) {
 	k := verifstore.Key{Group: Group, Kind: e.Kind, Namespace: e.NS, Name: e.Name}
@@ -491,13 +532,7 @@ func Exec(scheme *runtime.Scheme, fl Flavour, s Scn) string {
 		verdicts[p.Kind+"/"+p.Name] = p.DryRun
 	}
 	env.Store.DryRunVerdict = func(u *unstructured.Unstructured) error {
-		switch verdicts[u.GetKind()+"/"+u.GetName()] {
-		case "reject":
-			return apierrors.NewInvalid(schema.GroupKind{Group: Group, Kind: u.GetKind()}, u.GetName(), nil)
-		case "error":
-			return apierrors.NewInternalError(errors.New("scripted dry-run failure"))
-		}
-		return nil
+		return DryRunError(verdicts[u.GetKind()+"/"+u.GetName()], u)
 	}
 	writes := 0
 	env.Store.BeforeWrite = func(*verifstore.Request) {
